@@ -468,8 +468,11 @@ func (c *Float) Ident() string {
 			}
 			return fmt.Sprintf("0x%c%016X%016X", hexPrefix, a, b)
 		}
-		if c.X.IsInf() {
-			// Infinity in the first double, zero in the second.
+		if hi, _ := c.X.Float64(); c.X.IsInf() || math.IsInf(hi, 0) {
+			// Infinity in the first double, zero in the second. A finite sum
+			// beyond the range of double (a pair such as 0xM7FEF...7C8F..., whose
+			// parts do not overlap) has no double-double form either; splitting
+			// it would add infinities of opposite sign.
 			a, b := uint64(0x7FF0000000000000), uint64(0)
 			if c.X.Signbit() {
 				a |= 1 << 63
